@@ -282,6 +282,8 @@ class CInterp:
     def builtin(self, name, args):
         a = [self.rv(x) for x in args]
         if name in ("sqrtf", "sqrt"):
+            if isinstance(a[0], FV):
+                return FV([self.builtin(name, [x]) for x in a[0].v])
             if not is_sym(a[0]):
                 import math
                 return math.sqrt(a[0])
@@ -344,6 +346,9 @@ class CInterp:
                 p.region.freed = True
             return 0
         if name in ("isnan", "__isnanf", "__builtin_isnan"):
+            nan = getattr(self, "nan_value", None)
+            if nan is not None and isinstance(a[0], SReal):
+                return SBool(z3.simplify(rterm(a[0]) == nan))  # the contract's NaN token (a distinguished value of the cell)
             return False  # reals: no NaN unless a contract says so
         return None
 
@@ -838,6 +843,14 @@ class CInterp:
             self.ex.require_nonzero(term(b))
             q = _ctrunc_div(term(a), term(b))
             return SInt(z3.simplify(term(a) - term(b) * q))
+        nan = getattr(self, "nan_value", None)
+        if nan is not None and op in ("<", "<=", ">", ">=", "==", "!=") and (isinstance(a, SReal) or isinstance(b, SReal)):
+            # IEEE comparisons with the contract's NaN token: every ordered comparison and == is false, != is true
+            import operator as _o
+            f = {"<": _o.lt, "<=": _o.le, ">": _o.gt, ">=": _o.ge, "==": _o.eq, "!=": _o.ne}[op]
+            res = core.as_bool_term(f(a, b))
+            isn = z3.Or(*[rterm(x) == nan for x in (a, b) if isinstance(x, SReal)])
+            return SBool(z3.simplify(z3.Or(res, isn) if op == "!=" else z3.And(res, z3.Not(isn))))
         if op == "<":
             return a < b
         if op == "<=":
@@ -928,8 +941,9 @@ class CInterp:
             if len(args) >= 1 and isinstance(args[0], int):
                 return StdVector([args[1] if len(args) > 1 else 0] * args[0])
             if len(args) == 1 and isinstance(args[0], SInt):
-                # std::vector<T> v(n) with symbolic n: a heap region (contents unspecified until written)
-                r = Region(core.fresh_name("vec"), "real" if ("float" in qt or "double" in qt) else "int")
+                # std::vector<T> v(n) with symbolic n: a heap region, value-initialised (all zero) as the standard requires
+                real = "float" in qt or "double" in qt
+                r = Region(core.fresh_name("vec"), "real" if real else "int", init=z3.K(z3.IntSort(), z3.RealVal(0) if real else z3.IntVal(0)))
                 r.vsize = args[0]
                 return VecRegion(r)
         raise Unsupported(f"constructor of {qt} with {len(args)} arguments")
